@@ -30,3 +30,62 @@ add(["h_slru::c11", "h_slru::ctor", "h_slru::c22n22", "h_slru::c22n12", "h_slru:
     mem=3)
 add(["h_slru::c12", "h_slru::c21", "h_slru::c22"], SLRU_STEP, "thorough", 3,
     "SegmentedCache<u8,u8>: all 25 occupancies of caps in {1,2}x{1,2}; one operation with symbolic arguments", mem=3)
+
+# ---- 2Q ------------------------------------------------------------------------------------
+Q2_STEP = ["C01", "C02", "C03", "C05", "C08", "C12", "C13"]
+
+
+def q2_shapes(size, full_only=False):
+    out = []
+    for g in range(1, size + 1):
+        for nr in range(size + 1):
+            for nf in range(size + 1 - nr):
+                if full_only and nr + nf < size:
+                    continue
+                for ng in range(g + 1):
+                    out.append("s%dg%dn%d%d%d" % (size, g, nr, nf, ng))
+    return out
+
+
+def fam(mod, shapes, kinds):
+    return ["h_%s::%s::%s" % (mod, s, k) for s in shapes for k in kinds]
+
+
+Q2_KINDS = ["look", "put", "bulk"]
+add(fam("2q", q2_shapes(1), Q2_KINDS) + fam("2q", ["s2g1n200", "s2g1n111", "s2g2n022", "s2g2n112"], ["look", "put"]),
+    Q2_STEP, "quick", 3,
+    "TwoQueueCache<u8,u8>: size 1 (all 6 occupancies) and four full-cache occupancies of size 2; quota symbolic in "
+    "0..=size (enumerated where it steers control), ghost bound 1..=size; one operation; keys by pattern enumeration",
+    mem=4)
+add(fam("2q", q2_shapes(2), Q2_KINDS), Q2_STEP, "thorough", 3,
+    "TwoQueueCache<u8,u8>: size 2, all 30 (ghost bound, occupancy) shapes; one operation; keys by pattern enumeration", mem=4)
+add(fam("2q", q2_shapes(3, full_only=True), ["put"]), Q2_STEP, "thorough", 4,
+    "TwoQueueCache<u8,u8>: size 3, all full-cache occupancies, put", mem=6, tmul=2)
+add(fam("2q", q2_shapes(1), ["symkeys_put", "symkeys_look"]), Q2_STEP + ["C17"], "thorough", 3,
+    "TwoQueueCache<u8,u8>: size 1 with symbolic pairwise-distinct keys (cross-check of the pattern enumeration)", mem=8)
+
+# ---- ARC -----------------------------------------------------------------------------------
+ARC_STEP = ["C01", "C02", "C03", "C05", "C09", "C12", "C13"]
+
+
+def arc_shapes(size, pred=lambda a, b, c, d: True):
+    out = []
+    for a in range(size + 1):
+        for b in range(size + 1 - a):
+            for c in range(size + 1):
+                for d in range(size + 1):
+                    if pred(a, b, c, d):
+                        out.append("s%dn%d%d%d%d" % (size, a, b, c, d))
+    return out
+
+
+add(fam("arc", arc_shapes(1), Q2_KINDS) + ["h_arc::ctor"] +
+    fam("arc", ["s2n2022", "s2n1111", "s2n0212", "s2n1121"], ["look", "put"]),
+    ARC_STEP, "quick", 3,
+    "AdaptiveCache<u8,u8>: size 1 (all 12 occupancies) and four full-cache occupancies of size 2; p symbolic in "
+    "0..=size (enumerated where it steers control); one operation; keys by pattern enumeration", mem=4)
+add(fam("arc", arc_shapes(2), Q2_KINDS), ARC_STEP, "thorough", 3,
+    "AdaptiveCache<u8,u8>: size 2, all 54 occupancies; one operation; keys by pattern enumeration", mem=4)
+add(fam("arc", ["s1n0000", "s1n1000", "s1n0100", "s1n0010", "s1n0001"], ["symkeys_put", "symkeys_look"]),
+    ARC_STEP + ["C17"], "thorough", 3,
+    "AdaptiveCache<u8,u8>: size 1, sparse occupancies with symbolic pairwise-distinct keys (cross-check)", mem=10)
